@@ -75,6 +75,10 @@ func (rc *realClient) loop() {
 		switch op.Kind {
 		case "send":
 			p, err := buildLibPacket(op.Pkt)
+			if err == nil {
+				// the cleartext the library produced (crypt works in place on p.Body)
+				rc.s.w.Rec(world.Ev{Actor: "rc", Kind: "rc-clear", Conn: rc.c.conn.ID, A: int64(i), Bytes: append([]byte(nil), p.Body...)})
+			}
 			if err != nil {
 				ev.MarshalErr = err.Error()
 				rc.s.w.Rec(world.Ev{Actor: "rc", Kind: "rc-marshal-err", Conn: rc.c.conn.ID, A: int64(i), S: err.Error()})
@@ -89,12 +93,34 @@ func (rc *realClient) loop() {
 			mp := model.Packet{H: sut.LibHeader(*rep.Header), Body: append([]byte(nil), rep.Body...)}
 			ev.Reply = &mp
 			rc.s.w.Rec(world.Ev{Actor: "rc", Kind: "rc-reply", Conn: rc.c.conn.ID, A: int64(i), S: sut.J(mp.H), Bytes: mp.Body})
+			// device code decodes the reply body with the library decoder of the
+			// packet type's reply kind
+			if kind := replyKindOf(uint8(rep.Header.Type)); kind != "" {
+				v := sut.NewLib(kind)
+				if err := tq.Unmarshal(rep.Body, v); err != nil {
+					rc.s.w.Rec(world.Ev{Actor: "rc", Kind: "rc-decode-err", Conn: rc.c.conn.ID, A: int64(i), S: err.Error()})
+				} else {
+					rc.s.w.Rec(world.Ev{Actor: "rc", Kind: "rc-decoded", Conn: rc.c.conn.ID, A: int64(i), S: sut.J(sut.FromLib(v))})
+				}
+			}
 		case "close":
 			rc.client.Close()
 		}
 		rc.events = append(rc.events, ev)
 		rc.busy = false
 	}
+}
+
+func replyKindOf(typ uint8) string {
+	switch typ {
+	case model.TypeAuthen:
+		return model.KAuthenReply
+	case model.TypeAuthor:
+		return model.KAuthorReply
+	case model.TypeAcct:
+		return model.KAcctReply
+	}
+	return ""
 }
 
 // buildLibPacket builds the request with the library's own constructors and encoders.
